@@ -68,6 +68,7 @@ var c06Needles = map[string]string{
 	"add-import":              "c14ctx",
 	"dots-import":             "c14wrap",
 	"replace-import-shadowed": "example.com/conversion/to",
+	"bump":                    "c14bump",
 }
 
 var c06PkgRe = regexp.MustCompile(`(?m)^package ([A-Za-z_][A-Za-z0-9_]*)`)
